@@ -434,19 +434,32 @@ Definition classify100 (s : list N) : N :=
    no single request grows the buffer by more than 16 KiB beyond its own payload *)
 Definition buf_len (st : option (option blockv * option (N * N) * option (N * N))) : N :=
   match st with Some (_, _, Some b) => fst b | _ => 0 end.
+Definition buf_dig (st : option (option blockv * option (N * N) * option (N * N))) : option (N * N) :=
+  match st with Some (_, _, Some b) => Some b | _ => None end.
 
-Fixpoint check_hostile (l : list (N * packet * N * reply)) (os : list obs) (prev : list (N * N)) : bool :=
+(* prev: per key, the buffer (length, digest) as last observed *)
+Fixpoint check_hostile (l : list (N * packet * N * reply)) (os : list obs) (prev : list (N * option (N * N))) : bool :=
   match l, os with
   | [], [] => true
   | (tid, req, _, _) :: l', o :: os' =>
-    let before := match find (fun x => fst x =? tid) prev with Some x => snd x | None => 0 end in
+    let before_d := match find (fun x => fst x =? tid) prev with Some x => snd x | None => None end in
+    let before := match before_d with Some b => fst b | None => 0 end in
     let after := buf_len (o_state o) in
     negb (panicked o)
     && (if o_r1 o =? 2 then (128 <=? o_e1 o) || ((o_e1 o =? 0) && match o_resp o with None => true | Some _ => false end) else true)
     && (if o_r2 o =? 2 then (128 <=? o_e2 o) else true)
     && (after <=? before + MAX_RESERVE + len (payload req))
     && (if o_app o then len (o_seen o) <=? before + MAX_RESERVE + len (payload req) else true)
-    && check_hostile l' os' ((tid, after) :: filter (fun x => negb (fst x =? tid)) prev)
+    (* a request rejected with an internal error leaves the buffered data as it was *)
+    && (if (o_r1 o =? 2) && (o_e1 o =? 160)
+        then match before_d, buf_dig (o_state o) with
+             | Some b, Some a => (fst a =? fst b) && (snd a =? snd b)
+             | Some _, None => false
+             | None, Some a => fst a =? 0
+             | None, None => true
+             end
+        else true)
+    && check_hostile l' os' ((tid, buf_dig (o_state o)) :: filter (fun x => negb (fst x =? tid)) prev)
   | _, _ => false
   end.
 (* in suite 110 the tid of an exchange identifies its cache key (the generator guarantees it) *)
